@@ -375,13 +375,18 @@ _R6 = re.compile(r'\.\s*(sum|product)\s*(::\s*<\s*f64\s*>)?\s*\(\s*\)')
 
 
 def r6_sum(text, fn, log):
+    pos = 0
     while True:
         m = mask(text)
-        mk = _R6.search(m)
+        mk = _R6.search(m, pos)
         if not mk:
             return text
         s = operand_start(m, mk.start())
         it = text[s:mk.start()].strip()
+        if re.fullmatch(r'[\w.]+', it):
+            # a plain field path (`self.data.sum()`) is a method of that object, not an iterator reduction
+            pos = mk.end()
+            continue
         f = 'vsum' if mk.group(1) == 'sum' else 'vprod'
         new = '%s(%s.collect::<Vec<f64>>())' % (f, it)
         log.add('R6', fn, text[s:mk.end()], new)
